@@ -561,6 +561,14 @@ func c03Defects() []spDefect {
 		{"ap-ctime-late", func(c *spCase, r *RNG) { c.ap.ctimeOff = c.ap.skew + time.Microsecond }},
 		{"ap-caddr-match", func(c *spCase, r *RNG) { c.ap.caddr = []types.HostAddress{v4} }},
 		{"ap-caddr-mismatch", func(c *spCase, r *RNG) { c.ap.caddr = []types.HostAddress{v4b} }},
+		{"ap-caddr-mismatch+netbios", func(c *spCase, r *RNG) {
+			c.ap.caddr = []types.HostAddress{v4b, {AddrType: 20, Address: []byte("WORKSTATION     ")}}
+		}},
+		{"ap-caddr-netbios-only", func(c *spCase, r *RNG) {
+			c.ap.caddr = []types.HostAddress{{AddrType: 20, Address: []byte("WORKSTATION     ")}}
+		}},
+		{"ap-crealm-partner", func(c *spCase, r *RNG) { c.ap.crealm = "PARTNER.EXAMPLE" }},
+		{"ap-renewable-expired", func(c *spCase, r *RNG) { c.ap.renewable = true; c.ap.endOff = -time.Hour }},
 		{"ap-reqhost", func(c *spCase, r *RNG) { c.ap.reqHost = true }},
 		{"ap-clientaddr-configured", func(c *spCase, r *RNG) { c.ap.clientAddr = &v4b }},
 		{"ap-pac-valid", func(c *spCase, r *RNG) { c.ap.pac = "valid" }},
